@@ -147,6 +147,8 @@ class Case:
         rb.quiet()
         if routine in ("mercurius", "trace"):
             return self.hybrid(task)
+        if routine == "jacobi":
+            return self.jacobi(task)
         routine, N, N_active, tptype, ignore, soft, G, pattern, pset, ghosts, layout = task
         V = []
         tag = "%s N=%d N_active=%d type=%d ignore=%d soft=%g G=%g masses=%s pos=%d ghosts=%s roots=%s" % (routine, N, N_active, tptype, ignore, soft, G, pattern, pset, ghosts, layout)
@@ -174,6 +176,71 @@ class Case:
         return V, 1 if N >= 2 else 0
 
     # ------------------------------------------------------------------ MERCURIUS / TRACE splittings
+    def jacobi(self, task):
+        """REB_GRAVITY_JACOBI (used by the WHFast kernels and SABA): inertial accelerations whose Jacobi transform is the
+        acceleration of the interaction Hamiltonian, i.e. (Jacobi transform of the full pairwise accelerations) + G eta_i x'_i/|x'_i|^3"""
+        _, N, G, pattern, pset = task
+        rebound = self.rebound
+        V = []
+        tag = "jacobi N=%d G=%g masses=%s pos=%d" % (N, G, pattern, pset)
+        sim = rebound.Simulation()
+        sim.G = G
+        m = masses(pattern, N, -1)
+        if pattern == "testzero":
+            m = [1.0] + [0.0 if i % 2 else 0.3 for i in range(1, N)]
+        X = [POS[pset][i] for i in range(N)]
+        for i in range(N):
+            sim.add(m=m[i], x=X[i][0], y=X[i][1], z=X[i][2])
+        sim.integrator = "whfast"
+        sim.gravity = "jacobi"
+        self.cl.reb_simulation_update_acceleration(ctypes.byref(sim))
+        rb.drain_messages(sim)
+        got = self.acc(sim)
+        ml = np.array(m, dtype=LD)
+        Xl = np.array(X, dtype=LD)
+        Gl = LD(G)
+        # full pairwise accelerations and the size of their terms
+        a = np.zeros((N, 3), dtype=LD)
+        sa = np.zeros((N, 3), dtype=LD)
+        for i in range(N):
+            for j in range(N):
+                if i != j:
+                    d = Xl[i] - Xl[j]
+                    r2 = (d * d).sum()
+                    f = -Gl * ml[j] / (r2 * np.sqrt(r2))
+                    a[i] += f * d
+                    sa[i] += np.abs(f * d)
+
+        def jac(v):
+            out = np.zeros((N, 3), dtype=LD)
+            s_ = ml[0] * v[0]
+            eta = ml[0]
+            for i in range(1, N):
+                out[i] = v[i] - s_ / eta
+                s_ = s_ + ml[i] * v[i]
+                eta = eta + ml[i]
+            return out
+        xj = jac(Xl)
+        want = jac(a)
+        scale = jac(sa) * 0 + sa
+        eta = ml[0]
+        for i in range(1, N):
+            sm = (ml[:i, None] * sa[:i]).sum(axis=0) / eta if eta > 0 else 0
+            eta = eta + ml[i]
+            r2 = (xj[i] * xj[i]).sum()
+            k = Gl * eta / (r2 * np.sqrt(r2)) * xj[i]
+            want[i] += k
+            scale[i] = sa[i] + sm + np.abs(k)
+        gj = jac(np.array(got, dtype=LD))
+        for i in range(1, N):
+            for c in range(3):
+                tol = (64 + 8 * N) * U * float(scale[i][c]) + 1e-300
+                if abs(float(gj[i][c] - want[i][c])) > tol:
+                    V.append(("force:jacobi", "Jacobi transform of the routine's accelerations, particle %d component %d: %r, the interaction Hamiltonian gives %r (|diff| %.3g, tolerance %.3g) [%s]" % (
+                        i, c, float(gj[i][c]), float(want[i][c]), abs(float(gj[i][c] - want[i][c])), tol, tag)))
+                    return V, 1
+        return V, 1
+
     def hybrid(self, task):
         routine, N, N_active, tptype, soft, G, pattern, pset, enc, extra = task
         rebound = self.rebound
@@ -288,6 +355,12 @@ def run(ctx):
                                                 if N_active != -1 and N_active > N:
                                                     continue
                                                 tasks.append((routine, N, N_active, tptype, ignore, soft, G, pattern, pset, gh, lay))
+    # the Jacobi routine of the WHFast kernels / SABA
+    for N in ([2, 3, 4, 5, 6] + ([9] if ctx.tier == "thorough" else [])):
+        for G in (1.0, 2.5):
+            for pattern in ("equal", "geometric", "testzero"):
+                for pset in (0, 1):
+                    tasks.append(("jacobi", N, G, pattern, pset))
     # hybrid splittings
     for routine in ("mercurius", "trace"):
         for N in (2, 3, 4, 5):
@@ -319,7 +392,7 @@ def run(ctx):
             ctx.violation(sig, what, {"task": list(t)})
     cov = {
         "evaluations": len(tasks), "distinct_nontrivial": n,
-        "rule": "routine {basic, compensated, tree(theta=0)} x N 0..5(9) x N_active {-1,0..N} x testparticle_type x gravity_ignore_terms x softening{0,0.1} x G{1,2.5} x 4 mass patterns x 2 position sets x ghost boxes {0, (1,0,0), (1,1,0), (2,2,1)} x root layouts, "
+        "rule": "JACOBI routine on N 2..6(9) x G x 3 mass patterns x 2 position sets against the Jacobi transform of the pairwise sum plus the Kepler term; routine {basic, compensated, tree(theta=0)} x N 0..5(9) x N_active {-1,0..N} x testparticle_type x gravity_ignore_terms x softening{0,0.1} x G{1,2.5} x 4 mass patterns x 2 position sets x ghost boxes {0, (1,0,0), (1,1,0), (2,2,1)} x root layouts, "
                 "restricted to the sub-lattice each routine supports; MERCURIUS mode0+mode1 for every encounter subset and switching function, TRACE interaction+Kepler for every encounter subset and every 0/1 pattern of current_Ks inside it; non-trivial = N>=2",
         "samples": [list(tasks[0]), list(tasks[-1])], "exhaustive": True,
     }
